@@ -4,3 +4,15 @@ CHECKS["C01"] = (
     "Held on the executions observed: every (version, suite[, EtM]) cell tlslite-ng can negotiate is driven through seeded write/read/recordSize histories with position-stamped payload; a FIFO reference model checks every read and every wire record's plaintext length is checked against the limit in force. Sampling of payload/limit/history space, not exhaustive.",
     "Trusts the harness's in-memory transport and IANA-name parser; python cipher back ends only; chunked/blocking transports are covered by C14.",
     "DESIGN.md section 3, C01")
+CHECKS["C02"] = (
+    "exploration",
+    "runtime monitoring: record-layer differential monitor (accept iff byte-identical to sender's next record) with snapshot/restore, plus connection-level MITM oracle",
+    "Held on the executions observed: for each protection kind reached by a real handshake, thousands of adversarial transformations of captured records (bit flips incl. header, truncation, extension, splice, replay, swap, drop, reflection, other connection/sequence number, SSLv2 framing, TLS 1.3 inner-plaintext forgeries) are presented to the real receiver; the oracle demands acceptance exactly for the sender's next record and an integrity/decoding error otherwise; a connection-level MITM checks alert, closure and non-resumability. Known finding F7 (record-header version bytes unauthenticated below TLS 1.3) is reported, not hidden.",
+    "Trusts the harness snapshot of the read state (self-checked by re-presenting the honest record after every restore); python cipher back ends only; early-data trial decryption not exercised.",
+    "DESIGN.md section 3, C02")
+CHECKS["C03"] = (
+    "exploration",
+    "runtime monitoring: two-endpoint view comparison + independent policy oracle over randomly restricted settings pairs",
+    "Held on the executions observed: thousands of (client settings, server settings, credential flavour) pairs drawn from the lattice of restrictions; completed handshakes are compared field by field (secrets, exporter output, flags, ALPN, SNI, limits, chains) and every negotiated parameter is checked against both settings by an oracle that reads the IANA suite name and wire code points; failed handshakes must be explained by a fatal alert. Sampling, not exhaustive.",
+    "Trusts the IANA-name parser and wire walkers in vt/; one-sided completion in TLS 1.3 is recorded, not judged; optional back ends (ML-KEM, ML-DSA, TACK) absent.",
+    "DESIGN.md section 3, C03")
